@@ -125,6 +125,14 @@ def run(repo):
                     if isinstance(x, ast.List) and len(x.elts) == 3 and all(
                             isinstance(e, ast.Subscript) and ntext(e.value) == v for e in x.elts):
                         perm = tuple(ntext(e.slice) for e in x.elts)
+                # the same triple handed over entry by entry: three consecutive .append(e[k]) on one list
+                if perm is None:
+                    apps = [s_.value for s_ in n.body if isinstance(s_, ast.Expr) and isinstance(s_.value, ast.Call)
+                            and isinstance(s_.value.func, ast.Attribute) and s_.value.func.attr == 'append'
+                            and len(s_.value.args) == 1 and isinstance(s_.value.args[0], ast.Subscript)
+                            and ntext(s_.value.args[0].value) == v]
+                    if len(apps) == 3 and len({ntext(a.func.value) for a in apps}) == 1:
+                        perm = tuple(ntext(a.args[0].slice) for a in apps)
         if marker not in ntext(f3.node):
             raise AnalysisError('%s: %s not found' % (fq, marker))
         if perm is None:
